@@ -265,3 +265,21 @@ _ROUND4 = {
 for _k, _v in _ROUND4.items():
     if _k in CHECKS:
         CHECKS[_k]['text'] = CHECKS[_k]['text'].rstrip() + ' ' + _v
+
+
+# ---- rules added in the fifth round
+_ROUND5 = {
+    'C01': 'Round 5: the line reader does not interpret quotes (C02.R1 as R10); every selected spine contributes one cell to every row (gate truth tables as R11).',
+    'C03': 'Round 5: spine-operator arity (C02.R3/R5 as R12); the listener hides barlines only.',
+    'C09': 'Round 5: the American spelling reader is evaluated by the interpreter on its whole domain (630 spellings, R6).',
+    'C10': 'Round 5: every tokenizer receives the same category set (C04.R5 as R10).',
+    'C12': 'Round 5: no importer-lifetime object other than the reset error collector is plugged into the per-call parser (R1).',
+    'C13': 'Round 5: the selection is closure(include) - closure(exclude) (C11.R5 as R5).',
+    'C15': 'Round 5: the kern pitch codec is an inverse pair (C16.R2 as R9); the export gate does not depend on the token text (R10).',
+    'C17': 'Round 5: the class tested by the comment visitor has no subclass (R2).',
+    'C18': 'Round 5: a row opens a measure whatever the spine type (C07.R3 as R11); no class test on the parsed token before the category test (R3).',
+    'C19': 'Round 5: the validator accepts every pair concat hands out (C07.R1 as R3).',
+}
+for _k, _v in _ROUND5.items():
+    if _k in CHECKS:
+        CHECKS[_k]['text'] = CHECKS[_k]['text'].rstrip() + ' ' + _v
